@@ -87,7 +87,14 @@ def _tree(draw, D, ctxk, depth):
         return draw(_leaf(D, ctxk))
     if kind == "composite":
         n = draw(st.integers(2, 3))
-        return {"t": "composite", "parts": [draw(_tree(D, ctxk, depth - 1)) for _ in range(n)]}
+        node = {"t": "composite", "parts": [draw(_tree(D, ctxk, depth - 1)) for _ in range(n)]}
+        if draw(st.integers(0, 3)) == 0:
+            # the same transform OBJECT at two positions ([a, a], [a, b, a]): documented semantics is still part_n(...part_1(x))
+            i = draw(st.integers(0, n - 2))
+            j = draw(st.integers(i + 1, n - 1))
+            node["parts"][j] = node["parts"][i]
+            node["share"] = [i, j]
+        return node
     if kind == "inverse":
         inner = draw(_tree(D, ctxk, depth - 1))
         for _ in range(draw(st.sampled_from([1, 1, 2, 3, 4, 5]))):     # directly nested inverse wrappers, any parity
